@@ -18,7 +18,7 @@ pub(crate) struct Peer {
 }
 
 pub(crate) struct GenericSocketBackend {
-    pub(crate) peers: scc::HashMap<PeerIdentity, Peer>,
+    pub(crate) peers: Arc<scc::HashMap<PeerIdentity, Peer>>,
     fair_queue_inner: Option<Arc<Mutex<QueueInner<ZmqFramedRead, PeerIdentity>>>>,
     pub(crate) round_robin: SegQueue<PeerIdentity>,
     socket_type: SocketType,
@@ -33,7 +33,7 @@ impl GenericSocketBackend {
         options: SocketOptions,
     ) -> Self {
         Self {
-            peers: scc::HashMap::new(),
+            peers: Arc::new(scc::HashMap::new()),
             fair_queue_inner,
             round_robin: SegQueue::new(),
             socket_type,
@@ -121,7 +121,7 @@ impl MultiPeerBackend for GenericSocketBackend {
     }
 
     fn peer_disconnected(&self, peer_id: &PeerIdentity) {
-        self.peers.remove_sync(peer_id);
+        crate::util::remove_peer_entry(&self.peers, peer_id);
         // Take the peer's slot out of the rotation as well: a stale id left behind
         // would give the peer two slots if it reconnects under the same identity.
         for _ in 0..self.round_robin.len() {
